@@ -177,6 +177,7 @@ def drive(pid, sname, case, sim, ls, limit, is_max, out: Outcome, tr: Trace) -> 
 
     yielded = bytearray()
     broken = False
+    cached = None
     kinds = []
     reached = False
     for op in case.get("ops", []):
@@ -243,9 +244,19 @@ def drive(pid, sname, case, sim, ls, limit, is_max, out: Outcome, tr: Trace) -> 
                 eof = True
             elif kind == "get_data" and wrap == "raw" and getattr(ls, "_verif_request", None) is not None:
                 req = ls._verif_request
+                will_cache = bool(arg % 2) or arg % 4 >= 2
                 got = req.get_data(cache=bool(arg % 2)) if arg % 4 < 2 else req.data
                 eof = True
                 kind = "read_all"  # judged like any other unbounded read
+                if cached is not None:
+                    # a body that was read and cached is handed out again, not read again
+                    if got != cached or sim.calls != c0:
+                        vio("cached-body-changed", f"get_data() after a cached read returned {got[:40]!r}, the cached body is {cached[:40]!r} ({sim.calls - c0} further calls on the input)")
+                        break
+                    kinds.append("get_data_cached")
+                    continue
+                if will_cache:
+                    cached = got
             else:
                 continue
         except (ClientDisconnected, RequestEntityTooLarge) as e:
@@ -304,6 +315,10 @@ def drive(pid, sname, case, sim, ls, limit, is_max, out: Outcome, tr: Trace) -> 
             vio(f"disconnect-swallowed/op={kind}/wrap={wrap}", f"the input ended after {sim.pos} of {limit} declared bytes and no ClientDisconnected was raised")
             break
         if broken:
+            # after a reported failure a later call may fail again or carry on, but it may not announce a complete body
+            if eof and not is_max and wrap == "raw" and sim.pos < limit:
+                vio(f"end-of-body-after-error/op={kind}", f"after an earlier failure {kind} returned normally as if the body were complete; {sim.pos} of {limit} declared bytes were taken")
+                break
             continue
         if peeked is not None:
             rest = target[len(yielded) :]
@@ -464,6 +479,9 @@ class InputStream(BodyStream):
             out.probe("empty_fallback")
             return self._done(out, tr, sim)
         _, limit, is_max = expect
+        if stream is sim:
+            vio("server-input-returned-unwrapped", f"a length of {limit} applies (max mode {is_max}) but the server's own stream was handed out: nothing stops an over-read")
+            return self._done(out, tr, sim)
         if not isinstance(stream, LimitedStream):
             # still drive it: behaviour is what matters
             out.probe("not_a_limited_stream")
@@ -498,7 +516,7 @@ class RequestStream(InputStream):
         case["safe_fallback"] = True
         if rng.random() < 0.3:
             # the whole body through Request.get_data(): one unbounded read as far as the application is concerned
-            case["ops"] = [["get_data", rng.randrange(4)]]
+            case["ops"] = [["get_data", rng.randrange(4)] for _ in range(rng.choice([1, 1, 2, 3]))]
             case["wrap"] = "raw"
         return case
 
